@@ -108,6 +108,9 @@ STATEMENT_STATUS: Dict[str, str] = {
     "C12_page_state_reset": "proved: the state a page ends in (csmap, current colour spaces, text state, gstack, raised-or-not) does not depend on what the previous page left behind nor on the interned tables",
     "C12_page_state_history": "proved: every page of a call after ANY history of calls = that page rendered alone from the initial globals (independent of set and order of earlier pages)",
     "cs_nocopy_cex": "proved counter-example: csmap = PREDEFINED_COLORSPACE without .copy() lets a page's /ColorSpace resources change the default colour space of the next page",
+    "C12_getobj_refines_parse": "proved: after ANY history of callers that read or copy-before-change, caching on or off, getobj n = fresh parse of n (the cache refines the pure function (bytes, objid))",
+    "C12_getobj_nocache_pure": "proved: with caching off getobj n = fresh parse of n after EVERY history, in-place changes by callers included",
+    "getobj_alias_cex": "proved counter-example: getobj hands out the cached container itself, not a copy; an in-place change by a caller is seen by later getobj calls (caching on). Matches the code (correspondence); outside the extraction calls the property quantifies over, pdfminer's own callers copy first (cache_inv on the implementation)",
     "not_modelled": "layout analysis and the glyph/geometry part of the content interpreter are parameters of the theorems (abstract "
                     "per-page result function); FONT_METRICS is modelled as a digest per entry (number and sum of widths); the "
                     "interned tables are modelled for the content parser of the modelled operators (document parse interning is "
@@ -1325,6 +1328,11 @@ def run_corpus(ctx: C.Ctx) -> None:
 def replay(ctx: C.Ctx, doc, from_corpus: bool = False) -> None:
     warm_imports()
     inp = doc.get("input", {})
+    if "objcache" in inp:
+        from harness.props import c12_objcache as OC
+        ctx.branch("corpus" if from_corpus else "replay")
+        OC.replay_objcache(ctx, inp, canon_obj)
+        return
     if "gpool" in inp:
         from harness.props import c12_globals as G
         ctx.branch("corpus" if from_corpus else "replay")
@@ -1379,6 +1387,9 @@ def run(ctx: C.Ctx) -> None:
     # has seen nothing yet, once more after all the document histories below
     from harness.props import c12_globals as G
     G.run_globals(ctx, ctx.n(5, 40))
+    # getobj + object cache over mutable containers (Model/ProcObjCache.lean) on documents of a small pool
+    from harness.props import c12_objcache as OC
+    OC.run_objcache(ctx, make_pool(f"C12/objcache/{ctx.seed}/{ctx.boost}", 6), canon_obj, ctx.n(4, 24))
     npools = ctx.n(2, 12)
     for pno in range(npools):
         if not ctx.time_left():
